@@ -16,7 +16,7 @@ mkdir -p "$vf/evidence" "$vf/build/run" "$vf/build/replay"
 for p in "$@"; do
   echo "== $p against $(basename "$patch")"
   set +e
-  ( cd "$vf" && DELB_REPO="$wt" timeout 1500 ./check "$p" --tier "${VERIF_TIER:-quick}" 2>&1 | grep -E "VIOLATION|KNOWN-FINDING|Traceback|Error" | head -5; )
+  ( cd "$vf" && DELB_REPO="$wt" timeout 1500 ./check "$p" --tier "${VERIF_TIER:-quick}" > .mutcheck.out 2>&1; grep -E "^VIOLATION" .mutcheck.out | head -3; echo "known_finding_lines=$(grep -c '^KNOWN-FINDING' .mutcheck.out)"; grep -E "Traceback" .mutcheck.out | head -2; )
   ( cd "$vf" && /venv/bin/python -c "
 import json;e=json.load(open('evidence/$p.json'));print('violations=',e['violations'],'broken=',e['coverage']['broken'][:3])
 import glob
